@@ -31,7 +31,8 @@ CONSTANTS NF,         \* futures pushed at most (= MaxF of the judge)
           MaxPolls,   \* a future completes at its MaxPolls-th poll at the latest
           MaxROps,    \* scripted operations per remote thread
           MaxHeld,    \* waker clones a remote thread holds at most
-          Mut
+          Mut,
+          RecordHist  \* TRUE: hist records the behaviour (generator, counterexample export; use VIEW view); FALSE: hist stays empty
 
 VARIABLES slots,      \* the VecDeque: sequence of [f, st], st = "p" (Pending{handle, meta, waker}) | "r" (Ready{value})
           meta,       \* f -> [rc, act, st]   WakerMeta of future f: ref_count, activated, st = none | live | freed
@@ -66,7 +67,7 @@ EvMC(f) == [ev |-> "meta_create", f |-> f, task |-> 0]
 EvMF(f, t) == [ev |-> "meta_free", f |-> f, task |-> t]
 EvStep(f, t) == [ev |-> "step", f |-> f, task |-> t]
 
-H(t, l, op, f, p, b) == Append(hist, [t |-> t, l |-> l, op |-> op, f |-> f, p |-> p, b |-> b])
+H(t, l, op, f, p, b) == IF RecordHist THEN Append(hist, [t |-> t, l |-> l, op |-> op, f |-> f, p |-> p, b |-> b]) ELSE hist
 
 Init ==
     /\ slots = <<>>
